@@ -175,7 +175,17 @@ func (r *BaseOperationRepo) getDeletedOperations() (map[string]*types.Operation,
 }
 
 func (r *BaseOperationRepo) initJsonKey(key string) error {
-	err := r.state.Set(key, []byte("{}"))
+	bz, err := r.state.Get(key)
+	if err != nil {
+		return fmt.Errorf("failed to read state: %w", err)
+	}
+
+	// the key is already initialized, do not drop stored operations on node restart
+	if bz != nil {
+		return nil
+	}
+
+	err = r.state.Set(key, []byte("{}"))
 	if err != nil {
 		return fmt.Errorf("failed to init state: %w", err)
 	}
